@@ -191,6 +191,60 @@ def plan(tier):
             jobs.append(Job('%s.L2.wrapper_op.%s.%s' % (PROP, op, tag), kname, P_L2, c_rel(1), replace=REPL_L2, layer=2, **common))
             # exists on the pinned tree only for el != er and zero-degree operators; optional so that a body appearing elsewhere is proved, not assumed
             jobs.append(Job('%s.L1.aligned_op.%s.%s' % (PROP, op, tag), kname, P_L1, c_rel(1), replace=REPL_L1, layer=1, optional=True, **common))
+    # unary minus on scaled_integer (whole public operator inlined) and scaled_integer OP built-in integer (the integer counts as exponent 0)
+    for (l, el) in [('i32', -8), ('i16', -4), ('i8', 3)] + ([('i64', -30), ('u8', 0), ('i32', 70)] if thorough else []):
+        L = T(l)
+        A = sc(l, el, 2)
+        tag = 'neg_%s_%s' % (l, str(el).replace('-', 'm'))
+        sname = 'vp_' + tag
+        Res = CT.promote(L)
+        rs_ = [k_ for k_, v in CT.ALIAS.items() if v == Res.name and k_[0] in 'iu'][0]
+        src.append(shim(rs_, sname, [(l, 'a')], 'return cnl::_impl::to_rep(-cnl::_impl::from_rep<%s>(a));' % A))
+        src.append(fact_shim('exp_' + tag, 'cnl::_impl::tag_of_t<decltype(-%s{})>::exponent' % A))
+        jobs.append(fact_job(PROP, kname, 'exp_' + tag, el, 'unary minus keeps the exponent of %s' % A))
+
+        def c_neg(L, Res):
+            def gen(m, fi, tr):
+                if fi['nparams'] != 1:
+                    return None
+                w = Res.bits + 3
+                ex = '(-%s)' % wval(arg_rep(tr, fi, 0), L, w)
+                return Contract(requires=['%s <= %s' % (ex, wconst(Res.max, w)), '%s >= %s' % (ex, wconst(Res.min, w))] if Res.signed else ['%s == 0' % ex],
+                                ensures=['%s == %s' % (wval('$RET', Res, w), ex)], assigns=[], note='rep of -x is -rep(x) (same exponent: the exact negation) whenever it fits')
+            return gen
+        jobs.append(Job('%s.L3.operator.minus.%s' % (PROP, tag), kname, r'^auto cnl::_impl::operator-<cnl::_impl::wrapper<', c_neg(L, Res), via=sname,
+                        shim=sname, shim_types=[l], prop=PROP, timeout=120, layer=3,
+                        oracle=(lambda Res: lambda a: None if not Res.min <= -a <= Res.max else ('value', -a))(Res)))
+    for (l, el, r, order) in [('i32', -8, 'i32', 'wb'), ('i16', -4, 'i8', 'bw'), ('i32', 4, 'i16', 'wb')] + ([('u16', -3, 'i32', 'bw'), ('i64', -20, 'i32', 'wb')] if thorough else []):
+        L, Rh = T(l), T(r)
+        A = sc(l, el, 2)
+        for op, sym in OPS.items():
+            tag = '%s_%s_%s_%s_%s' % (order, op, l, str(el).replace('-', 'm'), r)
+            sname = 'vp_' + tag
+            if order == 'wb':
+                TL, EL, TR, ER = L, el, Rh, 0
+                body = 'return cnl::_impl::to_rep(cnl::_impl::from_rep<%s>(a) %s b);' % (A, sym)
+                params, types = [(l, 'a'), (r, 'b')], [l, r]
+            else:
+                TL, EL, TR, ER = Rh, 0, L, el
+                body = 'return cnl::_impl::to_rep(b %s cnl::_impl::from_rep<%s>(a));' % (sym, A)
+                params, types = [(r, 'b'), (l, 'a')], [r, l]
+            Res = res_type(TL, TR)
+            rs_ = [k_ for k_, v in CT.ALIAS.items() if v == Res.name and k_[0] in 'iu'][0]
+            src.append(shim(rs_, sname, params, body))
+            want = EL + ER if op == 'multiply' else min(EL, ER)
+            E = ('decltype(%s{} %s %s{})' % (A, sym, cxx(r))) if order == 'wb' else ('decltype(%s{} %s %s{})' % (cxx(r), sym, A))
+            src.append(fact_shim('exp_' + tag, 'cnl::_impl::tag_of_t<%s>::exponent' % E))
+            jobs.append(fact_job(PROP, kname, 'exp_' + tag, want, 'result exponent with a built-in integer operand (exponent 0)'))
+
+            def c_mixed(op, TL, EL, TR, ER):
+                def gen(m, fi, tr):
+                    if fi['nparams'] != 2:
+                        return None
+                    return rel_contract(op, TL, EL, TR, ER, 2, arg_rep(tr, fi, 0), arg_rep(tr, fi, 1))
+                return gen
+            jobs.append(Job('%s.L3.operator.%s' % (PROP, tag), kname, r'^auto cnl::_impl::operator[-+*]<', c_mixed(op, TL, EL, TR, ER), via=sname,
+                            shim=sname, shim_types=types, oracle=oracle_rel(op, TL, EL, TR, ER, 2), prop=PROP, timeout=120, layer=3, abstract_mul=(op == 'multiply')))
     k = Kernel(kname, ''.join(src), [], 'scaled_integer operators')
     # leaf jobs: every default_scale / plain operator instantiation present in the kernel gets its own proof
     jobs.append(('LEAVES', kname, P_SCALE, c_scale, 'L0.default_scale'))
